@@ -683,6 +683,27 @@ class ArrNormDomain(NormDomain):
                 return self.matmul(v, args[0], node)
             if name in ('sum',) and not args and not kwargs:
                 return self.call_ext('numpy.sum', [v], {}, node)
+            if name == 'sum' and set(kwargs) <= {'axis'} and len(args) <= 1:
+                ax = kwargs.get('axis', args[0] if args else None)
+                axes = [a.v for a in ax.items] if isinstance(ax, Tup) and all(isinstance(a, Const) and isinstance(a.v, int) for a in ax.items) else \
+                    ([ax.v] if isinstance(ax, Const) and isinstance(ax.v, int) and not isinstance(ax.v, bool) else None)
+                if axes is not None and all(-v.ndim <= a < v.ndim for a in axes):
+                    axes = sorted({a % v.ndim for a in axes})
+                    keep = [k for k in range(v.ndim) if k not in axes]
+                    import itertools
+                    out_shape = tuple(v.shape[k] for k in keep)
+                    out = []
+                    for pre in itertools.product(*[range(v.shape[k]) for k in keep]):
+                        acc = Const(0)
+                        for red in itertools.product(*[range(v.shape[k]) for k in axes]):
+                            idx = [0] * v.ndim
+                            for k, i_ in zip(keep, pre):
+                                idx[k] = i_
+                            for k, i_ in zip(axes, red):
+                                idx[k] = i_
+                            acc = self.interp.binop(ast.Add(), acc, v.get(*idx), node)
+                        out.append(acc)
+                    return out[0] if not out_shape else Arr(out_shape, out)
             return Unknown('array method %s' % name)
         return NormDomain.method(self, v, name, args, kwargs, node)
 
